@@ -8,6 +8,10 @@ real eqlog-runtime/src/toposort.rs and unification.rs interpreted and PrefixTree
      the program's own rules read over the inherited tuples;
  (2) the same for histories `calls; close_until (stopped at a symbolic point); more calls; close()` (morphisms, their
      dom / cod or facts added after an earlier close);
+ (0) recompute lemma (inductive piece, arbitrary state, U = 2 and 3): one call of the generated recompute_model_indices makes, for every
+     member relation, new-all u old-all exactly the inheritance closure (transitive, along the application graphs) of the own copies,
+     and own only shrinks by inherited tuples -- so the inheritance axiom and "nothing else is inherited" hold wherever the
+     generated code has just recomputed (the prologue and the end of every iteration, i.e. at every condition evaluation and return);
  (3) history independence by self-composition: two histories asserting the same symbolic facts in different orders,
      with close() at symbolic positions in between, end in the same closed model.
 Cyclic morphism graphs (answered by the generated code with a panic) are outside the quantifier and assumed away; any
@@ -73,6 +77,127 @@ def exclude_f5(h):
     return out
 
 
+def recompute_lemma(su, U, solver="kissat", timeout_s=600):
+    """one call of the generated recompute_model_indices from an ARBITRARY state (all own copies, morphism tables and
+    application graphs symbolic; dom, cod and the application graphs functional, every dom / cod value an object, the
+    morphism graph acyclic): afterwards, for every member relation, new-all u old-all is exactly the inheritance closure
+    of new-own u old-own (reference: U rounds of pushing tuples forward inside the query), and own only shrinks."""
+    import itertools
+    from terms import T, F
+    from values import int_eq, lit
+    ctx, I, sch = su.fresh()
+    c = ctx.c
+    m = M.arbitrary_state(I, sch)
+    st = M.State(sch, m)
+    doms = [r for r in sch.rels.values() if r.name.endswith("_mor_dom")]
+    cods = [r for r in sch.rels.values() if r.name.endswith("_mor_cod")]
+    if len(doms) != 1 or len(cods) != 1:
+        raise V.Unsupported("expected exactly one model type with morphisms")
+    dom, cod = doms[0], cods[0]
+    mor_t, obj_t = dom.types
+    apps = {r.types[1]: r for r in sch.rels.values() if r.name.endswith("_mor_app")}
+    members = [r for r in sch.user_rels() if any(ix.suffix == "_own" for ix in r.indices)]
+
+    def tab(rel, row, suffix=None):
+        out = F
+        for age in ("new", "old"):
+            for ix in rel.indices:
+                if ix.age == age and ix.eqs is None and len(ix.order) == rel.arity and ix.suffix == suffix:
+                    out = c.or2(out, st.table(ix.field).cell(ix.project(row)))
+                    break
+        return out
+
+    def holds(rel, row):
+        return c.orl([st.table(ix.field).cell(ix.project(row)) for ix in rel.indices if ix.eqs is None and len(ix.order) == rel.arity and ix.suffix is None and ix.order == sorted(ix.order)] or
+                     [st.table(rel.full(a).field).cell(rel.full(a).project(row)) for a in ("new", "old")])
+    pre = []
+    # all index copies of dom / cod / app / object type set agree (they are separate symbolic tables here)
+    for rel in [dom, cod] + list(apps.values()) + [sch.rels[obj_t]]:
+        for row in M.rows_of(rel, U):
+            for age in ("new", "old"):
+                base = rel.full(age)
+                for ix in rel.indices:
+                    if ix.age == age and ix is not base and ix.eqs is None and len(ix.order) == rel.arity:
+                        pre.append(c.iff(st.table(ix.field).cell(ix.project(row)), st.table(base.field).cell(base.project(row))))
+            pre.append(-c.and2(st.table(rel.full("new").field).cell(rel.full("new").project(row)), st.table(rel.full("old").field).cell(rel.full("old").project(row))))
+
+    def R(rel, row):
+        return st.rel_holds(rel.name, row)
+    for row in M.rows_of(dom, U):
+        pre.append(c.implies(R(dom, row), R(sch.rels[obj_t], (row[1],))))
+        for o2 in range(U):
+            if o2 != row[1]:
+                pre.append(-c.and2(R(dom, row), R(dom, (row[0], o2))))
+    for row in M.rows_of(cod, U):
+        pre.append(c.implies(R(cod, row), R(sch.rels[obj_t], (row[1],))))
+        for o2 in range(U):
+            if o2 != row[1]:
+                pre.append(-c.and2(R(cod, row), R(cod, (row[0], o2))))
+    for t, app in apps.items():
+        for row in M.rows_of(app, U):
+            for y2 in range(U):
+                if y2 != row[2]:
+                    pre.append(-c.and2(R(app, row), R(app, (row[0], row[1], y2))))
+    own0 = {rel.name: {row: tab(rel, row, "_own") for row in M.rows_of(rel, U)} for rel in members}
+    dom0 = {row: R(dom, row) for row in M.rows_of(dom, U)}
+    cod0 = {row: R(cod, row) for row in M.rows_of(cod, U)}
+    app0 = {t: {row: R(app, row) for row in M.rows_of(app, U)} for t, app in apps.items()}
+    ev0 = len(ctx.events)
+    I.call_fn(su.prog.methods[(sch.model, "recompute_model_indices")], T, [], self_val=m)
+    ev = ctx.events[ev0:]
+    goals = []
+    for g, k, msg in ev:
+        if k == "panic":
+            if "on Err" in msg:
+                pre.append(-g)          # cyclic morphism graph: outside the quantifier
+            else:
+                goals.append(("recompute: no panic: " + msg, -g))
+    bound = c.orl([g for g, k, msg in ev if k == "bound"])
+    n_goals_struct = 0
+    for rel in members:
+        clo = dict(own0[rel.name])
+        for _ in range(U):
+            nxt = dict(clo)
+            for row in M.rows_of(rel, U):
+                if clo[row] == F:
+                    continue
+                a = row[0]
+                for mm in range(U):
+                    for b in range(U):
+                        via = c.and_(dom0[(mm, a)], cod0[(mm, b)], clo[row])
+                        if via == F:
+                            continue
+                        # image of the remaining columns
+                        choices = []
+                        for col in range(1, rel.arity):
+                            t = rel.types[col]
+                            if t in apps:
+                                choices.append([(y, app0[t][(mm, row[col], y)]) for y in range(U)])
+                            else:
+                                choices.append([(row[col], T)])
+                        for combo in itertools.product(*choices):
+                            g = c.andl([via] + [gg for _, gg in combo])
+                            if g == F:
+                                continue
+                            tgt = (b,) + tuple(y for y, _ in combo)
+                            nxt[tgt] = c.or2(nxt[tgt], g)
+            clo = nxt
+        for row in M.rows_of(rel, U):
+            all1 = tab(rel, row, "_all")
+            own1 = tab(rel, row, "_own")
+            goals.append(("recompute: %s%s is in an all copy iff it is in the inheritance closure of the own copies" % (rel.name, list(row)), c.iff(all1, clo[row])))
+            goals.append(("recompute: own copy of %s%s only shrinks, and only by inherited tuples" % (rel.name, list(row)), c.and2(c.implies(own1, own0[rel.name][row]), c.implies(own0[rel.name][row], all1))))
+    bad = c.orl([-l for _, l in goals])
+    r, mdl = terms.solve(c, ctx.assumes + pre + [-bound, bad], solver=solver, timeout_s=timeout_s)
+    out = {"goals": len(goals), "nodes": c.n, "result": r}
+    if r == "sat":
+        vals = c.evaluate([l for _, l in goals], mdl)
+        out["failing"] = [lab for (lab, _), v in zip(goals, vals) if not v][:6]
+    rv, _ = terms.solve(c, ctx.assumes + pre + [-bound, c.orl([c.and2(dom0[(mm, a)], cod0[(mm, b)]) for mm in range(U) for a in range(U) for b in range(U) if a != b])], solver=solver, timeout_s=timeout_s)
+    out["vacuity (a morphism between two objects exists)"] = rv
+    return out
+
+
 def run_program(task):
     P.limit_memory(30)
     t0 = time.time()
@@ -88,6 +213,22 @@ def run_program(task):
 
         def left():
             return max(5, int(min(task["timeout"], t_end - time.time())))
+
+        for UL in (2, 3):
+            try:
+                suL = ModelSetup(task["rs"], task["eql"], task["rules"], U=UL)
+                lem = P.with_time_limit(600, recompute_lemma, suL, UL, timeout_s=600)
+                ok = lem["result"] == "unsat" and lem["vacuity (a morphism between two objects exists)"] == "sat"
+                res["queries"].append({"kind": "recompute lemma (arbitrary state)", "plan": [UL], "outcome": "unsat" if ok else str(lem)[:300], "info": {"nodes": lem["nodes"], "goals": lem["goals"]}})
+                if lem["result"] == "sat":
+                    res["inconclusive"].append("recompute lemma (U=%d) fails; no public history reproducing it was searched for at this size: %s" % (UL, lem.get("failing")))
+                elif not ok:
+                    res["inconclusive"].append("recompute lemma (U=%d): %s" % (UL, lem))
+            except (V.Unsupported, MemoryError, P.Timeout) as ex:
+                res["inconclusive"].append("recompute lemma (U=%d): %s: %s" % (UL, type(ex).__name__, ex))
+        if task.get("lemma_only"):
+            res["wall_s"] = round(time.time() - t0, 1)
+            return res
 
         def record(kind, plan, outcome, info=None):
             res["queries"].append({"kind": kind, "plan": plan, "outcome": outcome, "info": info if isinstance(info, (dict, str)) else None})
@@ -216,7 +357,7 @@ def main():
         if name not in meta:
             continue
         shutil.copy(f, os.path.join(src, name + ".eql"))
-        progs[name] = {"eql": os.path.join(src, name + ".eql"), "rules": meta[name]["rules"]}
+        progs[name] = {"eql": os.path.join(src, name + ".eql"), "rules": meta[name]["rules"], "lemma_only": meta[name].get("lemma_only", False)}
     p = P.sh([exe, src, out], timeout=900)
     if p.returncode != 0:
         print("INCONCLUSIVE: the compiler rejects the model-declaration corpus: " + (p.stdout + p.stderr)[-1500:])
@@ -244,9 +385,9 @@ def main():
     tasks = []
     for name, pr in sorted(progs.items()):
         heavy = name == "mset"
-        tasks.append({"program": name, "rs": pr["rs"], "eql": pr["eql"], "rules": pr["rules"], "scratch": scratch, "exe": harness.exe,
+        tasks.append({"program": name, "rs": pr["rs"], "eql": pr["eql"], "rules": pr["rules"], "scratch": scratch, "exe": harness.exe, "lemma_only": pr["lemma_only"],
                       "oneshot": [(2, 3, 3)] if quick else [(2, 3, 3), (2, 4, 3), (2, 5, 3), (3, 4, 3)],
-                      "resume": ([] if heavy else [(2, 3, 3, 2)]) if quick else [(2, 3, 3, 2), (2, 3, 3, 3), (3, 3, 3, 2)],
+                      "resume": ([(2, 3, 3, 2)] if name == "inh" else []) if quick else [(2, 3, 3, 2), (2, 3, 3, 3), (3, 3, 3, 2)],
                       "selfcomp": [] if quick else [(2, 3, 3), (2, 4, 3)],
                       "timeout": 240 if quick else 2400, "budget": 420 if quick else 7200})
     import multiprocessing as mp
